@@ -6,7 +6,11 @@ from concurrent.futures import ThreadPoolExecutor
 VERIF = os.path.dirname(os.path.dirname(os.path.abspath(__file__)))
 PY = sys.executable
 ids = [c["property_id"] for c in json.load(open(os.path.join(VERIF, "MANIFEST.json")))["checks"]]
-only = sys.argv[1:]
+only = [a for a in sys.argv[1:] if not a.startswith("--")]
+ALL = "--all" in sys.argv        # every check against every seed (hours); default: the target check and the checks anchored in the touched files
+FILES = {"core.py": "C01 C02 C03 C04 C05 C06 C07 C08 C09 C19", "minerals.py": "C01 C04 C05 C06 C07 C08 C09 C10 C17",
+         "utils.py": "C01 C06 C09 C13 C14 C18", "tensors.py": "C10 C11 C12 C13", "diagnostics.py": "C12 C13 C14", "stats.py": "C13 C14 C15 C20",
+         "io.py": "C16 C19", "mock.py": "C19", "geometry.py": "C14 C18 C20", "velocity.py": "C18", "pathlines.py": "C18"}
 rows = []
 
 
@@ -22,19 +26,22 @@ def one(seed):
             print(f"{seed}: patch does not apply: {r.stdout} {r.stderr}")
             return
         target = re.match(r"(C\d+)", seed).group(1)
+        touched = set(re.findall(r"^\+\+\+ b/src/pydrex/(\S+)", open(os.path.join(sd, "patch.diff")).read(), re.M))
+        props = ids if ALL else sorted({target} | {p for f in touched for p in FILES.get(f, "").split()})
         def run(p):
             env = dict(os.environ, PDXSA_EVIDENCE_DIR=os.path.join(d, "ev"), PDXSA_JOBS="4")
             rr = subprocess.run([PY, "-m", "pdxsa", "check", p, "--repo", d], cwd=VERIF, env=env, capture_output=True, text=True, timeout=3000)
             rules = sorted(set(re.findall(r"rule=(\S+)", rr.stdout)))
             return p, rr.returncode, rules
         with ThreadPoolExecutor(6) as ex:
-            res = list(ex.map(run, ids))
+            res = list(ex.map(run, props))
         det = {p: rules for p, rc, rules in res if rc == 1}
         err = [p for p, rc, rules in res if rc == 2]
         meta_path = os.path.join(sd, "meta.json")
         meta = json.load(open(meta_path)) if os.path.exists(meta_path) else {}
         meta["detected_by"] = det
         meta["analysis_errors"] = err
+        meta["checks_run"] = props
         meta["target_check_reports_it"] = target in det
         json.dump(meta, open(meta_path, "w"), indent=1)
         rows.append((seed, target in det, det, err))
